@@ -537,6 +537,12 @@ func transportScenario(r *rec, rng *rand.Rand, idx int) {
 	if mfdrop {
 		nreq, sizes = 1, []int{200000}
 	}
+	// another third: several uploads stuck on their stream windows at once; at the end credit comes stream by stream (WINDOW_UPDATE on each
+	// stream, in an order of the scenario's own) - every one of them must get going, whoever else is waiting on the connection
+	perStream := idx%3 == 1
+	if perStream {
+		nreq, sizes = 4, []int{20000, 70000}
+	}
 	done := make(chan error, nreq)
 	launch := func(size int, known bool) {
 		go func() {
@@ -658,6 +664,9 @@ func transportScenario(r *rec, rng *rand.Rand, idx int) {
 	if mfdrop {
 		w0, mf0 = 10, 65536
 	}
+	if perStream {
+		w0 = []uint32{0, 100}[rng.Intn(2)]
+	}
 	if err := settings(h2raw.Setting{ID: 4, Val: w0}, h2raw.Setting{ID: 5, Val: mf0}, h2raw.Setting{ID: 3, Val: 100}); err != nil {
 		r.notes = append(r.notes, fmt.Sprintf("tsend-%d: %v", idx, err))
 		return
@@ -666,6 +675,9 @@ func transportScenario(r *rec, rng *rand.Rand, idx int) {
 	responded := map[uint32]bool{}
 	finished := 0
 	steps := 6 + rng.Intn(12)
+	if perStream {
+		steps = 0
+	}
 	if mfdrop {
 		steps = 0
 		// finish the warm-up request, then start the upload proper
@@ -734,7 +746,24 @@ func transportScenario(r *rec, rng *rand.Rand, idx int) {
 	// ample credit; everything the requests hold must arrive
 	conn.Write(h2raw.WindowUpdate(0, 1<<24))
 	r.ev(map[string]any{"op": "wu", "s": 0, "n": 1 << 24, "sure": false})
-	if err := settings(h2raw.Setting{ID: 4, Val: 1 << 24}); err != nil {
+	if perStream {
+		for i := 0; i < 100 && len(ids) < nreq; i++ { // all uploads have started (and are stuck on their stream windows)
+			if err := barrier(); err != nil {
+				r.notes = append(r.notes, fmt.Sprintf("tsend-%d: %v", idx, err))
+				return
+			}
+			time.Sleep(5 * time.Millisecond)
+		}
+		for _, i := range rng.Perm(len(ids)) { // in an order of the scenario's own (whoever has waited longest is not necessarily served first)
+			conn.Write(h2raw.WindowUpdate(ids[i], 1<<22))
+			r.ev(map[string]any{"op": "wu", "s": ids[i], "n": 1 << 22, "sure": false})
+			if err := barrier(); err != nil {
+				r.notes = append(r.notes, fmt.Sprintf("tsend-%d: %v", idx, err))
+				return
+			}
+			time.Sleep(20 * time.Millisecond)
+		}
+	} else if err := settings(h2raw.Setting{ID: 4, Val: 1 << 24}); err != nil {
 		r.notes = append(r.notes, fmt.Sprintf("tsend-%d: %v", idx, err))
 		return
 	}
